@@ -289,7 +289,7 @@ func init() {
 		ID:    "C04",
 		Level: "model_checking",
 		Rule: "multi-file sessions (new file, delta-replaced file, file with appended data, file with a shorter different end, file replacing a symlink, replaced symlink, new symlink, replaced file) as library pull, daemon pull and daemon upload under the controlled scheduler: the state invariant is evaluated at every scheduling point (receiver frozen at a transport gate; with capacity 11 that is every 11 bytes, thorough: every 7 bytes and every byte) of every execution with <=1 (thorough <=2) deviations, and the connection is cut at every scheduling point (one extra execution per point). " +
-			"invariant: every listed path holds its complete previous content (or is still absent) or the complete new content, link targets are old or new, anything else on disk has a renameio temp name; after a cut the session must not report success with an incomplete destination, and once both ends returned and the connection is closed no temp file remains; inotify: the kernel event trace of the destination directories during a free-running session in all 5 arrangements shows no in-place write, delete, move-away or create-then-fill on any listed name. states = invariant evaluations, transitions = transport operations",
+			"invariant: every listed path holds its complete previous content (or is still absent) or the complete new content, link targets are old or new, anything else on disk has a renameio temp name; after a cut the session must not report success with an incomplete destination, and once both ends returned and the connection is closed no temp file remains; inotify: the kernel event trace of the destination directories during a free-running session in all 5 arrangements, plain and with --delete (listed names sorting between a directory and its contents, extraneous entries), shows no in-place write, delete, move-away or create-then-fill on any listed name. states = invariant evaluations, transitions = transport operations",
 		Assum: []string{"instants between two transport operations of the receiver are covered by the inotify part: the kernel's event log of the destination directories must show only rename-into-place events on listed names", "SIGKILL at an arbitrary instant is modelled by freezing the receiver at every transport gate"},
 		Parts: func(tier string) []core.Part {
 			return []core.Part{{Name: "scenarios", Build: c04BuildScenarios}, {Name: "inotify", Build: c04BuildInotify}}
